@@ -138,6 +138,8 @@ def run(P, R, tier):
     sync_rules(P, R)
     sel_rules(P, R)
     printfree_rule(P, R)
+    savedfree_rule(P, R)
+    printwrites_rule(P, R)
 
 
 def check_base(P, R, base, ost, on):
@@ -584,3 +586,316 @@ def printfree_rule(P, R):
         R.violation("C09.printfree", "print_all:pr_in", "a path through print_all (e.g. the pr.all == FALSE early return taken when the output file and string are both off) "
                     "does not clear phase::pr_in: Peng-Robinson state of the previous step leaks into the next one only when nothing is printed",
                     file=f["file"], line=f["line"], function=f["q"])
+
+
+def savedfree_rule(P, R):
+    """Values stored with a saved solution must not be brought up to date by printing code only.  For every scalar member
+    of the engine that xsolution_save copies into the saved solution: if some function reachable from print_all / punch_all
+    assigns it (printing recomputes it), a function assigning it must also be reachable from each calculation root
+    (set_and_run for reaction steps, initial_solutions) without passing print_all / punch_all - otherwise the saved value
+    depends on whether an output sink is switched on (density_x before 878bdb55: calc_dens only from print_totals)."""
+    from ..callgraph import CallGraph
+    R.rule("C09.savedfree", "a value that xsolution_save / xgas_save stores and that printing code recomputes is recomputed on the print-free calculation path as well", minimum=3)
+    cg = CallGraph(P)
+    f = P.one("Phreeqc::xsolution_save")
+    mems = []
+    for x in T.walk(f["body"]):
+        if x[0] == "Member" and T.is_node(x[3]) and x[3][0] == "This" and x[4] in ("double", "int", "long double") and x[2] not in mems:
+            mems.append(x[2])
+    if len(mems) < 10:
+        R.anchor_missing("C09.savedfree", "xsolution_save reads only %d scalar engine members" % len(mems))
+        return
+    W = {}
+    for key, g in P.functions.items():
+        for t, how, line, n in T.writes(g["body"]):
+            root, steps = T.access_path(t)
+            if steps and len(steps) == 1 and steps[0][0] == "f" and steps[0][1] in mems:
+                W.setdefault(steps[0][1], set()).add(key)
+
+    def keys(q):
+        return [k for k in P.functions if P.functions[k]["q"] == q]
+
+    def reach(roots, banned):
+        seen, st = set(roots), list(roots)
+        while st:
+            x = st.pop()
+            for y in cg.callees.get(x, ()):
+                if y not in seen and y not in banned:
+                    seen.add(y)
+                    st.append(y)
+        return seen
+    printers = keys("Phreeqc::print_all") + keys("Phreeqc::punch_all")
+    if len(printers) != 2:
+        R.anchor_missing("C09.savedfree", "print_all / punch_all not found")
+        return
+    inprint = reach(printers, set())
+    R.table("C09.savedfree", {"members_copied_by_xsolution_save": mems, "functions_reachable_from_printing": len(inprint)})
+
+    # must-write summaries: every path through g assigns m (directly or through a callee that always does)
+    memo = {}
+
+    def is_write(n, m, depth):
+        if not T.is_node(n):
+            return False
+        for t, how, line, w in T.writes(n):
+            root, steps = T.access_path(t)
+            if steps and len(steps) == 1 and steps[0] == ("f", m):
+                return True
+        for c in T.calls(n):
+            nullargs = tuple(i for i, a in enumerate(T.call_args(c)) if T.lit_value(T.strip_casts(a)) == 0)
+            for k in cg.resolve(c[2]) if isinstance(c[2], dict) else ():
+                if must(k, m, depth + 1, nullargs):
+                    return True
+        return False
+
+    def falsy(cond, nullparams):
+        """condition certainly false when the listed parameters are null: `p`, `p && ...`, `p != NULL && ...`"""
+        c = T.strip_casts(cond)
+        if not T.is_node(c):
+            return False
+        if c[0] == "Ref" and c[2] == "param" and int(c[5]) in nullparams:
+            return True
+        if c[0] == "Bin" and c[2] == "&&":
+            return falsy(c[3], nullparams) or falsy(c[4], nullparams)
+        if c[0] == "Bin" and c[2] == "!=":
+            a, b = T.strip_casts(c[3]), T.strip_casts(c[4])
+            return (T.lit_value(b) == 0 and falsy(a, nullparams)) or (T.lit_value(a) == 0 and falsy(b, nullparams))
+        return False
+
+    def specialise(n, nullparams):
+        if not T.is_node(n):
+            return n
+        if n[0] == "If" and falsy(n[2], nullparams):
+            return specialise(n[4], nullparams) if T.is_node(n[4]) else ["Compound", n[1], []]
+        return [specialise(x, nullparams) if isinstance(x, list) and x and isinstance(x[0], str) else
+                ([specialise(y, nullparams) for y in x] if isinstance(x, list) else x) for x in n]
+
+    def must(k, m, depth=0, nullargs=()):
+        if (k, m, nullargs) in memo:
+            return memo[(k, m, nullargs)]
+        memo[(k, m, nullargs)] = False          # cycles: not a must-writer
+        if depth > 4 or k not in W.get(m, set()) and not (cg.reach_from([k]) & W.get(m, set())):
+            return False
+        g = P.functions[k]
+        if nullargs:
+            g = dict(g)
+            g["body"] = specialise(g["body"], set(nullargs))
+        cfg = T.CFG(g)
+        seen, st = {cfg.entry}, [cfg.entry]
+        while st:
+            x = st.pop()
+            if is_write(cfg.nodes[x]["n"], m, depth):
+                continue
+            for y in cfg.nodes[x]["succ"]:
+                if y not in seen:
+                    seen.add(y)
+                    st.append(y)
+        memo[(k, m, nullargs)] = cfg.exit not in seen
+        return memo[(k, m, nullargs)]
+
+    # gas components: xgas_save stores phase::p_soln_x; printing code resets it for phases outside the model
+    resetters = []
+    for k in inprint:
+        for t, how, line, n in T.writes(P.functions[k]["body"]):
+            root, steps = T.access_path(t)
+            if steps and steps[-1] == ("f", "phase::p_soln_x") and how == "=" and T.lit_value(n[4]) == 0:
+                resetters.append(P.functions[k]["q"].split("::")[-1])
+    if resetters:
+        ok, why = _chk_xgas_resets(P, None)
+        g = P.one("Phreeqc::xgas_save")
+        if ok:
+            R.ok("C09.savedfree", "p_soln_x:xgas_save", why + " (printing code: %s does the same)" % ", ".join(sorted(set(resetters))))
+        else:
+            R.violation("C09.savedfree", "p_soln_x:xgas_save", why + " (%s): the saved partial pressure depends on the output switches" % ", ".join(sorted(set(resetters))),
+                        file=g["file"], line=g["line"], function=g["q"])
+    for m in mems:
+        wp = W.get(m, set()) & inprint
+        if not wp:
+            continue
+        names = sorted(P.functions[k]["q"].split("::")[-1] for k in wp)
+        for q in ("Phreeqc::set_and_run", "Phreeqc::initial_solutions"):
+            ks = keys(q)
+            if len(ks) != 1:
+                R.anchor_missing("C09.savedfree", "%s not found" % q)
+                return
+            f = P.functions[ks[0]]
+            inst = "%s:%s" % (m.split("::")[-1], q.split("::")[-1])
+            cfg = T.CFG(f)
+
+            def calls_q(n, name):
+                return T.is_node(n) and any(T.callee_q(c) == name for c in T.calls(n))
+            starts = [x for x in range(len(cfg.nodes)) if calls_q(cfg.nodes[x]["n"], "Phreeqc::model")]
+            targets = [x for x in range(len(cfg.nodes)) if calls_q(cfg.nodes[x]["n"], "Phreeqc::xsolution_save")] or [cfg.exit]
+            if not starts:
+                R.anchor_missing("C09.savedfree", "%s does not call model()" % q)
+                return
+            seen, st = set(), []
+            for x in starts:
+                for y in cfg.nodes[x]["succ"]:
+                    if y not in seen:
+                        seen.add(y)
+                        st.append(y)
+            bad = None
+            while st:
+                x = st.pop()
+                n = cfg.nodes[x]["n"]
+                if is_write(n, m, 0):
+                    continue
+                if x in targets:
+                    bad = x
+                    break
+                for y in cfg.nodes[x]["succ"]:
+                    if y not in seen:
+                        seen.add(y)
+                        st.append(y)
+            if bad is None:
+                R.ok("C09.savedfree", inst, "every path from model() to the point where the solution is saved assigns %s outside the printing code" % m.split("::")[-1])
+            else:
+                R.violation("C09.savedfree", inst, "%s is stored by xsolution_save and recomputed by printing code (%s), but a path from model() to the end of %s does not assign it: the saved value depends on the output switches" % (m, ", ".join(names), q.split("::")[-1]),
+                            file=f["file"], line=f["line"], function=f["q"])
+
+
+PRINT_ROOTS = ("Phreeqc::print_all", "Phreeqc::punch_all", "Phreeqc::print_model")
+SOLVER_ROOTS = ("Phreeqc::run_simulations", "Phreeqc::do_initialize", "Phreeqc::read_database")
+
+
+def print_only_functions(P, cg):
+    def keys(q):
+        return [k for k in P.functions if P.functions[k]["q"] == q]
+
+    def reach(roots, banned=()):
+        seen, st = set(roots), list(roots)
+        while st:
+            x = st.pop()
+            for y in cg.callees.get(x, ()):
+                if y not in seen and y not in banned and not P.functions[y]["q"].startswith("PBasic::"):
+                    seen.add(y)
+                    st.append(y)
+        return seen
+    printers = [k for q in PRINT_ROOTS for k in keys(q)]
+    solver_roots = [k for q in SOLVER_ROOTS for k in keys(q)]
+    if len(printers) != len(PRINT_ROOTS) or len(solver_roots) != len(SOLVER_ROOTS):
+        return None, None
+    pr = reach(printers)
+    solver = reach(solver_roots, set(printers))
+    return pr - solver, solver
+
+
+def printwrites_rule(P, R):
+    """Effect census of the printing code.  PRINT = functions reachable from print_all / punch_all / print_model (inverse) and
+    not reachable from run_simulations / read_database except through those entry points; the BASIC interpreter
+    is left out (what a user program does is the user's).  A PRINT function that assigns a field which solver or saving code
+    reads makes results depend on the output switches, unless the row is listed in tables/c09_printwrites.json with the
+    reason why it cannot (value restored, recomputed before the next read, scratch reset before use...).  Rows carry a `check`
+    where the reason is a structural fact that is re-validated on every run."""
+    import json
+    import os
+    from ..callgraph import CallGraph
+    RULE = "C09.printwrites"
+    R.rule(RULE, "printing code assigns engine state that solver / saving code reads only in the listed, justified places", minimum=20)
+    cg = CallGraph(P)
+    only, solver = print_only_functions(P, cg)
+    if only is None:
+        R.anchor_missing(RULE, "printing or solver entry points not found")
+        return
+    tab = json.load(open(os.path.join(os.path.dirname(os.path.dirname(os.path.dirname(os.path.abspath(__file__)))), "tables", "c09_printwrites.json")))
+    R.table("c09_printwrites.json", tab)
+    rows = tab["rows"]
+    read = set()
+    for k in solver:
+        for x in T.walk(P.functions[k]["body"]):
+            if x[0] == "Member":
+                read.add(x[2])
+    found = {}
+    for k in sorted(only):
+        g = P.functions[k]
+        qq = g["q"].split("::")
+        if len(qq) >= 2 and qq[-1] == qq[-2]:
+            continue            # constructor: the object under construction
+        for t, how, line, n in T.writes(g["body"]):
+            if how == "addr" and n[0] == "Call" and T.callee_name(n) == "qsort":
+                how = "call:qsort"          # qsort(&v[0], ...) reorders v
+            if how in ("ref", "addr"):
+                continue
+            if how.startswith("call:") and how != "call:operator[]" and (how[5:].startswith("Get_") or how[5:] in ("begin", "end", "find", "size")):
+                continue        # accessor; a write through the returned reference is reported where it happens
+            root, steps = T.access_path(t)
+            fs = [s_[1] for s_ in steps if s_[0] == "f"]
+            if how == "call:operator[]" and not fs:
+                # map[key] on the result of an accessor: Get_x()[k] inserts into member x of the object
+                tt = T.strip_casts(t)
+                if T.is_node(tt) and tt[0] == "Call" and (T.callee_q(tt) or "").split("::")[-1].startswith("Get_"):
+                    q_ = T.callee_q(tt)
+                    fs = [q_.rsplit("::", 1)[0] + "::" + q_.rsplit("::", 1)[1][4:]]
+                    root = T.call_obj(tt)
+                    read.add(fs[0])
+            if not fs or fs[-1] not in read:
+                continue
+            if T.is_node(root) and root[0] == "Ref" and root[2] == "local" and not str(root[4]).rstrip().endswith("*") and "&" not in str(root[4]):
+                continue        # a local object
+            found.setdefault((fs[-1], g["q"]), (g, line))
+    # functions that reorder a solver-read container in place (qsort): calling one from printing-only code is a write of it
+    sorters = {}
+    for k, g in P.functions.items():
+        for t, how, line, n in T.writes(g["body"]):
+            if how == "addr" and n[0] == "Call" and T.callee_name(n) == "qsort":
+                root, steps = T.access_path(t)
+                fs = [s_[1] for s_ in steps if s_[0] == "f"]
+                if fs and fs[-1] in read and not (T.is_node(root) and root[0] == "Ref" and root[2] == "local"):
+                    sorters[g["q"]] = fs[-1]
+    for k in sorted(only):
+        g = P.functions[k]
+        for c in T.calls(g["body"]):
+            if T.callee_q(c) in sorters:
+                found.setdefault((sorters[T.callee_q(c)], g["q"]), (g, c[1]))
+    R.table("C09.printwrites.census", {"print_only_functions": len(only), "solver_functions": len(solver), "pairs": len(found)})
+    for (fld, q), (g, line) in sorted(found.items()):
+        inst = "%s<-%s" % (fld, q.split("::")[-1])
+        row = rows.get("%s|%s" % (fld, q.split("::")[-1]))
+        if row is None:
+            R.violation(RULE, inst, "%s assigns %s, which solver or saving code reads, and is reached only when something is printed: results depend on the output switches (no row in tables/c09_printwrites.json)" % (q, fld),
+                        file=g["file"], line=line, function=q)
+            continue
+        chk = row.get("check")
+        if chk:
+            ok, why = PRINTWRITE_CHECKS[chk](P, g)
+            if not ok:
+                R.violation(RULE, inst, "%s assigns %s and the condition that made this harmless no longer holds: %s" % (q, fld, why), file=g["file"], line=line, function=q)
+                continue
+            R.ok(RULE, inst, "%s; re-validated: %s" % (row["reason"], why))
+        else:
+            R.ok(RULE, inst, row["reason"])
+
+
+def _chk_species_list_restored(P, g):
+    """print_all: species_list copied to a local before species_list_sort and assigned back from it on the way out"""
+    f = P.one("Phreeqc::print_all")
+    saved = None
+    sort_line = None
+    restored = False
+    for x in T.walk(f["body"]):
+        if x[0] == "Bin" and x[2] == "=" or (x[0] == "Call" and isinstance(x[2], dict) and T.base_name(x[2].get("q", "")) == "operator=" and len(x[4]) == 2):
+            lhs, rhs = (x[3], x[4]) if x[0] == "Bin" else (x[4][0], x[4][1])
+            l, r = T.strip_casts(lhs), T.strip_casts(rhs)
+            if T.is_node(l) and T.is_node(r):
+                if l[0] == "Ref" and l[2] == "local" and r[0] == "Member" and r[2] == "Phreeqc::species_list" and sort_line is None:
+                    saved = l[3]
+                if l[0] == "Member" and l[2] == "Phreeqc::species_list" and r[0] == "Ref" and r[3] == saved and sort_line is not None:
+                    restored = True
+        if x[0] == "Call" and T.callee_q(x) == "Phreeqc::species_list_sort":
+            sort_line = x[1]
+    if saved and sort_line and restored:
+        return True, "print_all copies species_list to `%s` before species_list_sort (line %d) and assigns it back before returning" % (saved, sort_line)
+    return False, "print_all does not restore species_list from a copy taken before species_list_sort (sum_species adds in the order of this list)"
+
+
+def _chk_xgas_resets(P, g):
+    f = P.one("Phreeqc::xgas_save")
+    for t, how, line, n in T.writes(f["body"]):
+        root, steps = T.access_path(t)
+        if steps and steps[-1] == ("f", "phase::p_soln_x") and how == "=" and T.lit_value(n[4]) == 0:
+            return True, "xgas_save resets p_soln_x itself (line %d) for a phase outside the model" % line
+    return False, "xgas_save stores phase::p_soln_x without resetting it for phases outside the model; only print_gas_phase does"
+
+
+PRINTWRITE_CHECKS = {"species_list_restored": _chk_species_list_restored, "xgas_resets": _chk_xgas_resets}
